@@ -908,6 +908,8 @@ func cacheMain(args []string) error {
 		return cacheConc(args[1:])
 	case "lat":
 		return cacheLat(args[1:])
+	case "feedconc":
+		return cacheFeedConc(args[1:])
 	}
 	return fmt.Errorf("cache: unknown mode %q", args[0])
 }
